@@ -139,6 +139,7 @@ def provider_bank(ctx) -> None:
     add = prog.func(f'{PROVIDER}:Bank.add')
     graph = cfg.CFG(add.node)
     writes = [s for s in graph.statements() if isinstance(s, ast.Assign) and any(isinstance(t, ast.Subscript) and core.src(t.value) == 'self.provider' for t in s.targets)]
+    writes += [s for s in graph.statements() if any(isinstance(c.func, ast.Attribute) and c.func.attr in ('setdefault', 'update', '__setitem__') and core.src(c.func.value) == 'self.provider' for c in cfg.header_calls(s))]
     ctx.check(len(writes) >= 1, 'C20.bank', add, 'Bank.add registers the provider', add.node, key='add:writes')
     coll_loops = []
     for s in add.body:
@@ -156,7 +157,8 @@ def provider_bank(ctx) -> None:
     for w in writes:
         ctx.check(all(graph.dominates(c, w) for c in coll_loops) and bool(coll_loops), 'C20.bank', add, 'the registry write is dominated by the collision check', w, key='add:write-after-collision')
         ctx.check(all(graph.dominates(a, w) for a in abstract_ret) and bool(abstract_ret), 'C20.bank', add, 'the registry write is dominated by the abstract early return', w, key='add:write-after-abstract')
-        ctx.check(core.src(w.value) == 'provider', 'C20.bank', add, 'the reference is bound to the class being registered', w, key='add:value')
+        if isinstance(w, ast.Assign):
+            ctx.check(core.src(w.value) == 'provider', 'C20.bank', add, 'the reference is bound to the class being registered', w, key='add:value')
     refs = next((s for s in add.body if isinstance(s, ast.Assign) and core.src(s.targets[0]) == 'references'), None)
     ctx.check(refs is not None and 'Reference(provider)' in core.src(refs.value), 'C20.bank', add, 'every provider is registered under its qualified name', refs or add.node, key='add:qualname')
     ctx.check('references.add(alias)' in core.src(add.node), 'C20.bank', add, 'and under its alias when given', add.node, key='add:alias')
